@@ -34,40 +34,49 @@ Fixpoint decode_esc (fuel : nat) (q : N) (s : str) : option str :=
   | S f =>
     match s with
     | [] => Some []
-    | 92%N :: rest =>
-        match rest with
-        | 98%N :: r => option_map (cons 8%N) (decode_esc f q r)      (* \b *)
-        | 102%N :: r => option_map (cons 12%N) (decode_esc f q r)    (* \f *)
-        | 110%N :: r => option_map (cons 10%N) (decode_esc f q r)    (* \n *)
-        | 114%N :: r => option_map (cons 13%N) (decode_esc f q r)    (* \r *)
-        | 116%N :: r => option_map (cons 9%N) (decode_esc f q r)     (* \t *)
-        | 47%N :: r => option_map (cons 47%N) (decode_esc f q r)     (* \/ *)
-        | 92%N :: r => option_map (cons 92%N) (decode_esc f q r)     (* \\ *)
-        | 117%N :: a :: b :: c :: d :: r =>                           (* \uXXXX *)
-            match hex4 a b c d with
-            | Some u =>
-                if is_high u then
-                  match r with
-                  | 92%N :: 117%N :: a2 :: b2 :: c2 :: d2 :: r2 =>
-                      match hex4 a2 b2 c2 d2 with
-                      | Some l =>
-                          if is_low l
-                          then option_map (cons (65536 + (u - 55296) * 1024 + (l - 56320))%N)
-                                          (decode_esc f q r2)
-                          else None
-                      | None => None
-                      end
-                  | _ => None
-                  end
-                else if is_low u then None
-                else option_map (cons u) (decode_esc f q r)
-            | None => None
-            end
-        | c :: r => if N.eqb c q then option_map (cons q) (decode_esc f q r) else None
-        | [] => None
-        end
     | c :: rest =>
-        if N.eqb c q then None                 (* the enclosing quote cannot appear unescaped *)
+        if N.eqb c 92 then                                        (* backslash: an escape *)
+          match rest with
+          | [] => None
+          | e :: r =>
+              if N.eqb e 98 then option_map (cons 8%N) (decode_esc f q r)          (* \b *)
+              else if N.eqb e 102 then option_map (cons 12%N) (decode_esc f q r)   (* \f *)
+              else if N.eqb e 110 then option_map (cons 10%N) (decode_esc f q r)   (* \n *)
+              else if N.eqb e 114 then option_map (cons 13%N) (decode_esc f q r)   (* \r *)
+              else if N.eqb e 116 then option_map (cons 9%N) (decode_esc f q r)    (* \t *)
+              else if N.eqb e 47 then option_map (cons 47%N) (decode_esc f q r)    (* \/ *)
+              else if N.eqb e 92 then option_map (cons 92%N) (decode_esc f q r)    (* \\ *)
+              else if N.eqb e 117 then                                             (* \uXXXX *)
+                match r with
+                | a :: b :: c' :: d :: r1 =>
+                    match hex4 a b c' d with
+                    | Some u =>
+                        if is_high u then
+                          match r1 with
+                          | b1 :: u1 :: a2 :: b2 :: c2 :: d2 :: r2 =>
+                              if N.eqb b1 92 && N.eqb u1 117 then
+                                match hex4 a2 b2 c2 d2 with
+                                | Some l =>
+                                    if is_low l
+                                    then option_map
+                                           (cons (65536 + (u - 55296) * 1024 + (l - 56320))%N)
+                                           (decode_esc f q r2)
+                                    else None
+                                | None => None
+                                end
+                              else None
+                          | _ => None
+                          end
+                        else if is_low u then None
+                        else option_map (cons u) (decode_esc f q r1)
+                    | None => None
+                    end
+                | _ => None
+                end
+              else if N.eqb e q then option_map (cons q) (decode_esc f q r)        (* the escaped quote *)
+              else None
+          end
+        else if N.eqb c q then None            (* the enclosing quote cannot appear unescaped *)
         else if N.ltb c 32 then None           (* control characters must be escaped *)
         else option_map (cons c) (decode_esc f q rest)
     end
@@ -77,17 +86,14 @@ Definition decode_body (q : N) (s : str) : option str := decode_esc (S (length s
 (* Raw selector text: 'body', "body" or a shorthand name. *)
 Definition decode_name (raw : str) : option str :=
   match raw with
-  | 39%N :: rest =>
-      match rev rest with
-      | 39%N :: body_rev => decode_body 39 (rev body_rev)
-      | _ => None
-      end
-  | 34%N :: rest =>
-      match rev rest with
-      | 34%N :: body_rev => decode_body 34 (rev body_rev)
-      | _ => None
-      end
-  | _ => Some raw
+  | c :: rest =>
+      if N.eqb c 39 || N.eqb c 34 then
+        match rev rest with
+        | c2 :: body_rev => if N.eqb c2 c then decode_body c (rev body_rev) else None
+        | [] => None
+        end
+      else Some raw
+  | [] => Some raw
   end.
 
 (** * 2.3.5.2.2  Comparisons *)
@@ -115,12 +121,13 @@ Fixpoint rfc_json_eq (a b : json) : bool :=
          | _, _ => false
          end) la lb
   | JObj ma, JObj mb =>
-      (* equal as collections of name/value pairs, names unique *)
+      (* equal as collections of name/value pairs: as many members, and every member of [a] has
+         a member of [b] with the same name and an equal value.  Member names are unique within
+         an object ([wf_json]; always so in this library), which makes this the lookup form
+         [assoc k mb = Some y /\ x == y] (lemma [obj_eq_assoc_form], ValueFacts) *)
       Nat.eqb (length ma) (length mb)
-      && forallb (fun kv => match assoc (fst kv) mb with
-                            | Some y => rfc_json_eq (snd kv) y
-                            | None => false
-                            end) ma
+      && forallb (fun kv => existsb (fun kv2 => str_eqb (fst kv) (fst kv2)
+                                               && rfc_json_eq (snd kv) (snd kv2)) mb) ma
   | _, _ => false
   end.
 
